@@ -1,6 +1,6 @@
 """Shared libFuzzer campaign driver for C16 / C17."""
 import os, re, glob, shutil, hashlib, subprocess, time, base64
-from nvlib import Stats, shard_seed, load_known
+from nvlib import Stats, shard_seed, load_known, repo_re
 import nvbuild
 
 
@@ -39,14 +39,14 @@ def tmp_base():
 
 def crash_site(report):
     """first frame inside /repo (file:function), or the UBSan location"""
-    m = re.search(r"(/repo/\S+?):(\d+):\d+: runtime error: ([^\n]*)", report)
+    m = re.search(repo_re() + r"/(\S+?):(\d+):\d+: runtime error: ([^\n]*)", report)
     if m:
-        return "%s: %s" % (m.group(1)[6:], re.sub(r"-?\d+", "N", m.group(3))[:80]), m.group(0)[:300]
+        return "%s: %s" % (m.group(1), re.sub(r"-?\d+", "N", m.group(3))[:80]), m.group(0)[:300]
     m = re.search(r"C1[67]-ORACLE: ([^\n]*)", report)
     if m:
         return "oracle: " + m.group(1)[:80], m.group(0)
     kind = re.search(r"ERROR: AddressSanitizer: (\S+)", report)
-    fr = re.search(r"#\d+ 0x[0-9a-f]+ in (\S+)[^\n]* /repo/(\S+?):\d+", report)
+    fr = re.search(r"#\d+ 0x[0-9a-f]+ in (\S+)[^\n]* " + repo_re() + r"/(\S+?):\d+", report)
     if kind or fr:
         return "%s in %s %s" % (kind.group(1) if kind else "signal", fr.group(2) if fr else "?", fr.group(1) if fr else "?"), \
             (kind.group(0) if kind else "") + " " + (fr.group(0) if fr else "")
